@@ -478,30 +478,9 @@ def metamorphic(ctx):
 
 
 def regenerate(ctx):
-    """§2.4(a): re-translate analysis/gdp.py of the tree under test; if the text changed, re-build and re-audit"""
-    import os
-
+    from .. import regen
     from . import c12_trans as T
-    try:
-        txt = T.translate()
-        ctx.extra["translator"] = "ok"
-    except T.Untranslatable as e:
-        txt = ("/-! GENERATED – analysis/gdp.py is outside the translator's subset: " + str(e)[:300].replace("-/", "- /")
-               + " -/\nnamespace Opacus.Generated.Gdp\nend Opacus.Generated.Gdp\n")
-        ctx.extra["translator"] = "untranslatable: " + str(e)[:300]
-        ctx.log("translator:", ctx.extra["translator"])
-    old = T.GEN_FILE.read_text() if T.GEN_FILE.exists() else None
-    ctx.extra["generated_gdp"] = "unchanged" if old == txt else "CHANGED (re-proved)"
-    if old == txt:
-        return
-    foreign = os.path.realpath(str(core.REPO)) != "/repo"
-    try:
-        T.GEN_FILE.write_text(txt)
-        ctx.obligations = []
-        ctx.prove()
-    finally:
-        if foreign and old is not None:
-            T.GEN_FILE.write_text(old)
+    regen.regenerate(ctx, T, "Opacus.Generated.Gdp", "accountants/analysis/gdp.py")
 
 
 def run(ctx):
